@@ -16,7 +16,6 @@ import CnvVerif.Lemmas.DescWeighted
 import CnvVerif.Lemmas.DescWeighted2
 import CnvVerif.Lemmas.DescBiweight
 import CnvVerif.Lemmas.Smoothing
-import CnvVerif.Lemmas.SrcWing
 namespace CnvVerif.C19
 open CnvVerif CnvVerif.Desc CnvVerif.Smooth CnvVerif.Generated
 
@@ -276,15 +275,5 @@ example : weightedMedianCore false [0, 1, 2] [(1, 1), (2, 1), (3, 1)] = 2 := by 
 example : weightedMedianCore false [1, 3, 0, 2] [(3, 0), (1, 1), (4, 2), (2, 1)] = 3 := by decide +kernel
 example : rollingMedian [5] 3 = .ok [5] := by decide +kernel
 example : rollingMedianPrefix [5] 3 = .error .assertionError := by decide +kernel
-
-/-- tie to the source text: the model's window half-width IS the expression `_width2wing` computes
-    (Generated/ExprsWing.lean is re-translated from /repo on every run): the same value when the function returns,
-    −1 on the ValueError branch, a value below 1 where the final `assert wing >= 1` fails -/
-theorem width2wing_is_the_source (width : Rat) (n : Nat) :
-    match Smooth.width2wing width n with
-    | Except.ok w => src_width2wing width ((MIN_WING : Nat) : Rat) (n : Rat) = (w : Rat) ∧ 1 ≤ w
-    | Except.error Smooth.WingErr.valueError => src_width2wing width ((MIN_WING : Nat) : Rat) (n : Rat) = -1
-    | Except.error Smooth.WingErr.assertionError => src_width2wing width ((MIN_WING : Nat) : Rat) (n : Rat) < 1 :=
-  Src.width2wing_is_source width n
 
 end CnvVerif.C19
